@@ -133,7 +133,7 @@ pub fn replay<Z9: crate::src::Src>(s: &mut Z9, out: &mut Vec<(String, String, St
             obls.update(u.verus_obls)
         if not obls:
             return None, "; ".join(log) or "no Verus contract for this program"
-        want = emit.closure({u.trait for u in us if not u.skip_verus} | set(P.tags.get("verus_also", ())))
+        want = emit.closure({u.trait for u in us if not u.skip_verus} | set(P.focus) | set(P.tags.get("verus_also", ())))
         focus_traits = {u.trait for u in us if not u.skip_verus}
         # traits handled by one emitter for two names (Ord+PartialOrd, Deref+DerefMut)
         for u in us:
